@@ -18,7 +18,7 @@ package mem
 //@   modifies held(s.mu)
 //@   ensures "locked" err == nil && held(s.mu)
 //@   ensures "fresh" isType(txn, *transaction) && fresh(txn.(*transaction)) && txnInv(txn.(*transaction)) && txn.(*transaction).store == s &&
-//@                   txn.(*transaction).op == 0 && !txn.(*transaction).released && !cancelled(txn.(*transaction).ctx)
+//@                   txn.(*transaction).op == 0 && !txn.(*transaction).released && !cancelled(txn.(*transaction).ctx) && ref(txn.(*transaction).results) == 0 && fresh(txn.(*transaction).ctx)
 //@   nopanic
 
 //@ func (t *transaction) release()
@@ -69,7 +69,7 @@ package mem
 //@ func (s *store) set(path string, src keyvalue.FileRecord, contents blob.Blob) (err error)
 //@   props C18 C14
 //@   requires s != nil
-//@   modifies mapOf(s.records)
+//@   modifies mapOf(s.records), world()
 //@   ensures "delete" implies(src == nil, err == nil && !in(path, dom(s.records)) && sameExcept(s, path) && world() == old(world()))
 //@   ensures "data-error" implies(src != nil && old(srcDataErr(src)) != nil, err == old(srcDataErr(src)) && sameAll(s))
 //@   ensures "store" implies(src != nil && old(srcDataErr(src)) == nil, err == nil && in(path, dom(s.records)) && sameExcept(s, path) &&
@@ -114,7 +114,7 @@ package mem
 //@ func (t *transaction) SetHandler(path string, src keyvalue.FileRecord, contents blob.Blob, handler keyvalue.OpHandler) (id keyvalue.OpID)
 //@   props C18 C14
 //@   requires txnInv(t) && handler != nil && t.op < 1<<40
-//@   modifies t.op, t.results, elems(t.results), cancelled(t.ctx), t.released, held(t.store.mu), mapOf(t.store.records)
+//@   modifies t.op, t.results, elems(t.results), cancelled(t.ctx), t.released, held(t.store.mu), mapOf(t.store.records), world()
 //@   ensures "one-result" id == old(t.op) && t.op == old(t.op) + 1 && len(t.results) == old(len(t.results)) + 1 && t.results[id].Op == id &&
 //@                        forall(i, 0, old(len(t.results)), t.results[i] == old(t.results[i]))
 //@   ensures "after-abort-no-effect" implies(old(cancelled(t.ctx)), t.results[id].Err == ctxErr() && sameAll(t.store) && world() == old(world()) &&
@@ -134,7 +134,7 @@ package mem
 //@ func (t *transaction) Set(path string, src keyvalue.FileRecord, contents blob.Blob) (id keyvalue.OpID)
 //@   props C18 C14
 //@   requires txnInv(t) && t.op < 1<<40
-//@   modifies t.op, t.results, elems(t.results), mapOf(t.store.records)
+//@   modifies t.op, t.results, elems(t.results), mapOf(t.store.records), world()
 //@   ensures "one-result" id == old(t.op) && t.op == old(t.op) + 1 && len(t.results) == old(len(t.results)) + 1 && t.results[id].Op == id &&
 //@                        forall(i, 0, old(len(t.results)), t.results[i] == old(t.results[i]))
 //@   ensures "after-abort-no-effect" implies(cancelled(t.ctx), t.results[id].Err == ctxErr() && sameAll(t.store) && world() == old(world()))
